@@ -3,6 +3,7 @@
 //! `<stream>.impl` files plus `<stream>.stats.json`.  `kvh replay <stream> <case>` runs one case.
 mod s_date;
 mod s_headers;
+mod s_parse;
 mod s_router;
 mod util;
 
@@ -22,6 +23,9 @@ fn main() {
             "datecache" => s_date::run_cache(&a[3]),
             "router" => s_router::run(&a[3]),
             "headers" => s_headers::run(&a[3]),
+            "parse" => s_parse::run_parse(&a[3]),
+            "prefix" => s_parse::run_prefix(&a[3]),
+            "grammar" => s_parse::run_grammar(&a[3]),
             s => panic!("unknown stream {s}"),
         };
         println!("{r}");
@@ -39,6 +43,9 @@ fn main() {
         "datecache" => s_date::gen_cache(&ctx),
         "router" => s_router::gen(&ctx),
         "headers" => s_headers::gen(&ctx),
+        "parse" => s_parse::gen_parse(&ctx),
+        "prefix" => s_parse::gen_prefix(&ctx),
+        "grammar" => s_parse::gen_grammar(&ctx),
         s => panic!("unknown stream {s}"),
     }
 }
